@@ -583,6 +583,14 @@ func newWorld(c *Case, cfg foCfg) *world {
 		DeleteExpiredJobInterval: farFuture, DeleteExpiredAfter: farFuture, ItemsCountReportInterval: farFuture,
 	})
 
+	return w
+}
+
+// attach creates the frontend. It is separate from newWorld so that the (possibly long) clock
+// advance preparing stale entries happens before the failure cache's one-minute janitor exists.
+func (w *world) attach() {
+	c, cfg := w.c, w.cfg
+
 	var logger cache.Logger
 
 	switch cfg.logger {
@@ -618,8 +626,6 @@ func newWorld(c *Case, cfg foCfg) *world {
 	}
 
 	c.OnClose(1, w.fe.Close)
-
-	return w
 }
 
 // ---------------------------------------------------------------------------------------------
